@@ -126,6 +126,7 @@ SUBCHECKS = {
         rule="case = (GCC shape, ladder of shifted levels, iso|glide, contribution); non-trivial = >=2 levels on one side receive duty or the shape has a pocket; "
              "outcomes = distinct duty vectors",
         cases=U.cases, run=table_run,
+        requires=("OpenPinch.analysis.gcc_manipulation:get_additional_GCCs", "OpenPinch.analysis.utility_targeting:get_utility_targets"),
         bound=lambda t: "{0..3}^n n<=5, ladders <=2 levels" if t == "quick" else "{0..3}^n n<=6, ladders <=3 levels",
     ),
     "service": SubCheck(
